@@ -26,6 +26,10 @@ func (P) Gen(r *core.Rand, tier string, emit func([]string)) {
 	if tier == "thorough" {
 		n = 4000
 	}
+	jsonstrDirected(emit)
+	for i, m := 0, n/2; i < m; i++ {
+		emit(jsonstrOps(r, 12))
+	}
 	for i := 0; i < n; i++ {
 		var ops []string
 		var specs []*msggen.Spec
@@ -44,6 +48,14 @@ func (P) Gen(r *core.Rand, tier string, emit func([]string)) {
 			specs = append(specs, s)
 			core.Count("msg:" + s.Class())
 			mode := "p"
+			if r.Chance(1, 4) {
+				// struct fields that disagree with same-named keys of the header map (a modifier
+				// changed the field after the message was parsed)
+				if label, m := msggen.Disagree(r, a); label != "" {
+					mode = m
+					core.Count("disagree:" + label)
+				}
+			}
 			spec := c15.HarSpec(r)
 			if req {
 				ps := ParamsTok(wantParams(s))
@@ -83,6 +95,7 @@ func (P) Gen(r *core.Rand, tier string, emit func([]string)) {
 				ops = append(ops, "jsoncontent "+r.Pick("1", "1", "1", "0")+" "+core.HexS(r.Pick("image/png", "text/html; charset=utf-8", ""))+" "+core.Hex(text))
 			}
 		}
+		ops = append(ops, jsonstrOps(r, r.Range(1, 3))...)
 		ops = append(ops, "export")
 		emit(ops)
 	}
